@@ -381,9 +381,25 @@ class Runner:
         else:
             body, pid = out, None
         vals = {}
-        for m in re.finditer(r'^\s*(?:\d+: )?([A-Za-z_]\w*)(?:\[(\d+)l?\])?=.*\(([01 ]+)\)\s*$', body, re.M):
+        # only assignments made while control is in a function *defined by the harness* count: callee locals may carry the same names
+        # (e.g. `b`, `r`).  Call lines read "↳ <call-site file>:<line> <callee>(args)".
+        hsrc = open(os.path.join(VERIF, 'harness', inst.harness)).read()
+        hfuncs = set(re.findall(r'^[A-Za-z_][\w \t\*]*?\b([A-Za-z_]\w*)\s*\([^;{]*\)\s*\{', hsrc, re.M)) | {'main'}
+        stack = [True]
+        for line in body.split('\n'):
+            if line.startswith('\u21b3'):
+                mm = re.match(r'\u21b3 \S+ ([A-Za-z_]\w*)\(', line)
+                stack.append(mm.group(1) in hfuncs if mm else stack[-1])
+                continue
+            if line.startswith('\u21b5'):            # return
+                if len(stack) > 1:
+                    stack.pop()
+                continue
+            m = re.match(r'^\s*(?:\d+: )?([A-Za-z_]\w*)(?:\[(\d+)l?\])?=.*\(([01 ]+)\)\s*$', line)
+            if not m:
+                continue
             n, idx, bits = m.group(1), m.group(2), m.group(3).replace(' ', '')
-            if n in names:
+            if n in names and stack[-1]:
                 key = n if idx is None else '%s[%s]' % (n, idx)
                 vals[key] = int(bits, 2)
         cex['property'] = pid
@@ -433,6 +449,17 @@ class Runner:
             r = subprocess.run([exe], capture_output=True, text=True, env=env, timeout=60, errors='replace')
         except subprocess.TimeoutExpired:
             return 'CONFIRMED', 'native replay does not terminate within 60 s (non-termination)'
+        if r.returncode == 0:
+            # the solver may have used the nondeterministic contents of a fresh allocation: repeat with glibc's allocator perturbation
+            for pert in ('165', '85', '255'):
+                try:
+                    r2 = subprocess.run([exe], capture_output=True, text=True, env=dict(env, MALLOC_PERTURB_=pert), timeout=60, errors='replace')
+                except subprocess.TimeoutExpired:
+                    continue
+                if r2.returncode not in (0, 77):
+                    r = r2
+                    open(os.path.join(outdir, 'run.sh'), 'a').write('# reproduces with MALLOC_PERTURB_=%s (dependence on uninitialised heap memory)\n' % pert)
+                    break
         os.remove(exe)
         txt = (r.stdout + r.stderr)[-3000:]
         open(os.path.join(outdir, 'replay.out'), 'w').write('rc=%d\n%s' % (r.returncode, txt))
